@@ -268,6 +268,14 @@ func genC13Cases(env *Env, r *Rand, n int) []Case {
 			}
 		}
 	}
+	// text/template syntax reaching pass 2 through operands that are forwarded as text
+	for _, mode := range []string{"", "[BITS 32]\n"} {
+		for _, op := range ops {
+			for _, t := range []string{"\"{{.nosuch}}\"", "\"{{.}}\"", "8:\"{{.nosuch}}\"", "\"{{.deflabel}}{{.nosuch}}\"", "\"{{\"", "{{.nosuch}}", "[\"{{.nosuch}}\"]"} {
+				add("template-operand", mode+wrap("\t"+op+" "+t))
+			}
+		}
+	}
 	// (e) numbers beyond 64 bits / 2^32 multiples in every numeric position
 	numPos := []string{"\tDB %s", "\tDW %s", "\tDD %s", "\tRESB %s", "\tALIGNB %s", "\tORG %s", "\tMOV AX,%s", "\tMOV EAX,%s", "\tADD BYTE [BX],%s", "\tMOV AX,[BX+%s]", "\tMOV EAX,[EBX+%s]",
 		"\tINT %s", "\tJMP %s", "\tCALL %s", "\tJE %s", "\tJMP %s:0", "\tJMP 8:%s", "X EQU %s\n\tDD X", "[BITS %s]", "\tPUSH %s", "\tSHL AX,%s", "\tIN AL,%s", "\tOUT %s,AL", "\tRET %s", "\tIMUL CX,%s", "\tRESB %s-$", "\tDD %s*%s", "\tDD 1/%s", "\tDD %s%%7", "[FORMAT %s]", "\tTIMES %s DB 0"}
